@@ -1,4 +1,69 @@
-(** C13 - placeholder while the proofs are being written (replaced in this session). *)
-From Coq Require Import List ZArith.
-From HK Require Import Model.Queue Model.QueueMon.
-Theorem C13_placeholder : True. Proof. exact I. Qed.
+(** C13 - queue backends are observationally equivalent.
+    The model has one function per Store method with a flavour parameter; these theorems state
+    exactly where the two flavours can differ. Each real backend is tied to its own flavour by the
+    per-step correspondence, and the two real backends are also compared with each other directly
+    (props/c13.py).  Only theorem statements; proofs are [exact] of lemmas from Proofs/. *)
+From Coq Require Import List ZArith NArith Bool.
+From HK Require Import Model.Queue Model.QueueMon Proofs.QueueBase Proofs.QueueInv Proofs.QueueInvStep
+  Proofs.QueueStep Proofs.QueueFlavour Proofs.QueueAdmit.
+Import ListNotations.
+Open Scope Z_scope.
+
+(** ack/nack/extend/dead (single and batch), cancel/requeue/resume/DLQ requeue/DLQ delete (by id and by
+    filter), list, DLQ list, lookup, stats: same result, same observable state, for every argument *)
+Theorem C13_flavour_free_operations_agree : forall c x o sm ss,
+  flavour_free x = true -> same_obs sm ss ->
+  snd (step Mem c sm x o) = snd (step Sql c ss x o)
+  /\ same_obs (fst (step Mem c sm x o)) (fst (step Sql c ss x o)).
+Proof. exact flavour_free_agree. Qed.
+
+(** dequeue: same result and state for the same choice among eligible messages whenever the SQLite
+    call sweeps; the only other regime is the bounded sweep delay of C05 *)
+Theorem C13_dequeue_agrees_when_sweeping : forall c now route target batch ttl o sm ss,
+  same_obs sm ss -> sql_sweep_due now (last_sweep ss) = true ->
+  snd (step_dequeue Mem c now route target batch ttl o sm) = snd (step_dequeue Sql c now route target batch ttl o ss)
+  /\ same_obs (fst (step_dequeue Mem c now route target batch ttl o sm)) (fst (step_dequeue Sql c now route target batch ttl o ss)).
+Proof. exact dequeue_agree. Qed.
+
+(** enqueue (single and batch): same result and state without a depth limit or under the reject
+    policy, as long as the memory-only resource rules (memory pressure, delivered-retention depth
+    term) do not fire.  [C13_..._partial]: under drop_oldest the two flavours additionally agree only
+    up to the choice of victim among equally old queued messages; both choices are proved to be an
+    oldest queued message (C12), the equality of the remaining state is checked by the correspondence. *)
+Theorem C13_enqueue_agrees_partial : forall c now single es o sm ss,
+  (single = true -> length es = 1%nat) ->
+  same_obs sm ss -> c_drop_oldest c = false \/ c_max_depth c <= 0 ->
+  mem_rules_off c (msgs (prune c now (o_gone o) ss)) ->
+  snd (step_enqueue Mem c now single es o sm) = snd (step_enqueue Sql c now single es o ss)
+  /\ msgs (fst (step_enqueue Mem c now single es o sm)) = msgs (fst (step_enqueue Sql c now single es o ss))
+  /\ issued (fst (step_enqueue Mem c now single es o sm)) = issued (fst (step_enqueue Sql c now single es o ss))
+  /\ last_prune (fst (step_enqueue Mem c now single es o sm)) = last_prune (fst (step_enqueue Sql c now single es o ss)).
+Proof. exact enqueue_agree_reject. Qed.
+
+(** under drop_oldest both backends evict an oldest queued message (by received_at) *)
+Theorem C13_victims_equally_old_sql : forall hint l v,
+  sql_victim hint l = Some v ->
+  exists m, In m l /\ m_id m = v /\ queuedb m = true /\ forall q, In q l -> queuedb q = true -> m_recv m <= m_recv q.
+Proof. exact sql_victim_oldest. Qed.
+
+Theorem C13_victims_equally_old_mem : forall ord l vs m,
+  mem_oldest ord l vs None = Some m ->
+  forall i q, In i ord -> find_id i l = Some q -> queuedb q = true -> ~ In i vs -> m_recv m <= m_recv q.
+Proof. intros ord l vs m H. exact (proj2 (mem_oldest_min ord l vs None m H)). Qed.
+
+Example C13_witness :
+  let e := mkEnq (Some 7%N) 1%N 1%N None None 5%N 0%N 0%N in
+  let o0 := mkOracle [] [] [] [] in
+  let h := [(Enqueue 100 e, o0);
+            (Dequeue 20000000 None None 1 1000, mkOracle [(7%N, 1%N)] [] [] []);
+            (LeaseOp 20000300 (KNack 0) (LKnown 1%N true), o0);
+            (ListDead 20000400 None 0 None, o0)] in
+  map ev_res (model_trace Mem (mkCfg 3 false 0 0 0 0 0 0) h) = map ev_res (model_trace Sql (mkCfg 3 false 0 0 0 0 0 0) h)
+  /\ map ev_after (model_trace Mem (mkCfg 3 false 0 0 0 0 0 0) h) = map ev_after (model_trace Sql (mkCfg 3 false 0 0 0 0 0 0) h).
+Proof. vm_compute. split; reflexivity. Qed.
+
+Print Assumptions C13_flavour_free_operations_agree.
+Print Assumptions C13_dequeue_agrees_when_sweeping.
+Print Assumptions C13_enqueue_agrees_partial.
+Print Assumptions C13_victims_equally_old_sql.
+Print Assumptions C13_victims_equally_old_mem.
